@@ -55,13 +55,23 @@ func init() {
 				return
 			}
 			var fs []string
+			isPresent := map[string]bool{}
 			for _, f := range sqlast.PresentFields(t) {
-				for i, n := range t.Names {
-					if n == f && t.Kids[i].IsAtom && len(t.Kids[i].Atom) <= 40 {
-						f += "=" + core.Hex(t.Kids[i].Atom)
+				isPresent[f] = true
+			}
+			for i, n := range t.Names {
+				k := t.Kids[i]
+				switch {
+				case k.IsAtom && len(k.Atom) > 0 && len(k.Atom) <= 40 && string(k.Atom) != "-":
+					// the value of a short string / number field (`!`: not counted as filled – "", false, 0)
+					if isPresent[n] {
+						fs = append(fs, n+"="+core.Hex(k.Atom))
+					} else {
+						fs = append(fs, "!"+n+"="+core.Hex(k.Atom))
 					}
+				case isPresent[n]:
+					fs = append(fs, n)
 				}
-				fs = append(fs, f)
 			}
 			nodes = append(nodes, t.Kind+":"+strings.Join(fs, ","))
 		})
@@ -171,6 +181,16 @@ func parseFormPaths(line string) []formPath {
 // field with the regenerated constants, the dialect switch. Conditions on sub-fields (`ShowTablesOpt.DbName`) and
 // opaque ones are not decided (the answer is then "one of them" and the first is taken).
 func pathOf(paths []formPath, kind string, present map[string]bool, values map[string]string, dialect string) int {
+	all := pathsOf(paths, kind, present, values, dialect)
+	if len(all) == 0 {
+		return -1
+	}
+	return all[0]
+}
+
+// pathsOf: every path of the kind whose decidable conditions hold (several when they differ in opaque conditions only)
+func pathsOf(paths []formPath, kind string, present map[string]bool, values map[string]string, dialect string) []int {
+	var out []int
 	for _, p := range paths {
 		if p.kind != kind {
 			continue
@@ -199,10 +219,10 @@ func pathOf(paths []formPath, kind string, present map[string]bool, values map[s
 			}
 		}
 		if ok {
-			return p.idx
+			out = append(out, p.idx)
 		}
 	}
-	return -1
+	return out
 }
 
 // ---- fragments: sample texts per grammar symbol. A symbol without an entry is a terminal (its lower-cased name,
@@ -272,7 +292,60 @@ var formFragments = map[string][]string{
 	"like_or_where_opt":                {"like 'a%'", "where a = 1"},
 	"vindex_type_opt":                  {"using hash"},
 	"vindex_params_opt":                {"with owner = t, a = b"},
-	"partition_operation":              {"reorganize partition p0 into (partition p1 values less than (10), partition p2 values less than (maxvalue))"},
+	// symbols of the clause, table and expression rules
+	"expression":                  {"a", "a = 1", "b + 1", "(a or b)", "not a", "a is null"},
+	"value_expression":            {"a", "1", "b + 1", "(a)", "'x'", "f(a)"},
+	"condition":                   {"a = 1"},
+	"compare":                     {"=", "<", ">=", "!=", "<=>"},
+	"col_tuple":                   {"(1, 2)", "(select b from u)", "::list"},
+	"like_escape_opt":             {"escape '!'"},
+	"is_suffix":                   {"null", "not null", "true", "not false"},
+	"as_ci_opt":                   {"as x", "x"},
+	"as_opt":                      {"as"},
+	"as_opt_id":                   {"as x", "x"},
+	"reserved_table_id":           {"u"},
+	"reserved_sql_id":             {"b"},
+	"partition_list":              {"p0", "p0, p1"},
+	"inner_join":                  {"join", "inner join", "cross join"},
+	"straight_join":               {"straight_join"},
+	"outer_join":                  {"left join", "right outer join", "left outer join"},
+	"natural_join":                {"natural join", "natural left join"},
+	"table_reference":             {"t", "t as x", "(t, v)"},
+	"table_factor":                {"u", "u as y", "(select a from v) as s"},
+	"join_condition":              {"on t.a = u.a", "using (a)"},
+	"join_condition_opt":          {"on t.a = u.a", "using (a, b)"},
+	"on_expression_opt":           {"on t.a = u.a"},
+	"index_hint_list":             {"use index (i1)", "ignore index (i1, i2)", "force index (i1)"},
+	"subquery":                    {"(select b from u)", "(select b from u where c = 1 limit 1)"},
+	"interval_units":              {"day", "hour", "minute_second"},
+	"select_expression_list_opt":  {"a, 1", "*"},
+	"func_datetime_precision_opt": {"()"},
+	"separator_opt":               {"separator ','", "separator 'it''s'"},
+	"length_opt":                  {"(10)"},
+	"charset_opt":                 {"character set utf8", "charset latin1"},
+	"decimal_length_opt":          {"(10)", "(10, 2)"},
+	"asc_desc_opt":                {"asc", "desc"},
+	"column_name":                 {"a", "t.a", "db.t.a"},
+	"when_expression_list":        {"when a = 1 then 'x'", "when a = 1 then 'x' when b then 'y'"},
+	"else_expression_opt":         {"else 'z'"},
+	"default_opt":                 {"(a)"},
+	"expression_opt":              {"a"},
+	"convert_type":                {"char(10)", "signed", "decimal(10, 2)", "varchar(10)", "binary(4)", "char(3) character set utf8", "datetime(3)", "json"},
+	"match_option":                {"in boolean mode", "in natural language mode", "with query expansion"},
+	"expression_list":             {"a, 1", "'x'"},
+	"charset":                     {"utf8", "'latin1'"},
+	"typecast":                    {"text", "int4"},
+	"tuple_expression":            {"(1, 2)", "(a)"},
+	"boolean_value":               {"true", "false"},
+	"value":                       {"1", "'x'", "1.5", "x'ff'", "?", ":v1", "null"},
+	"SINGLE_QUOTE_STRING":         {"'1 day'", "'2 hours'"},
+	"DOUBLE_QUOTE_STRING":         {"\"col\""},
+	"INTEGRAL":                    {"10", "3"},
+	"STRING":                      {"'s'"},
+	"string":                      {"'s'"},
+	"VALUE_ARG":                   {":v1"},
+	"LIST_ARG":                    {"::list"},
+	"partition_operation":         {"reorganize partition p0 into (partition p1 values less than (10), partition p2 values less than (maxvalue))"},
 }
 
 // symbols whose fragments are statements produced by this generator itself (filled while it runs)
@@ -284,11 +357,43 @@ var formStatementSyms = map[string]string{
 	"prepared_query":   "",
 }
 
+// clauseContexts: for a rule that builds clause / table / expression nodes, the statement its text is put into
+var clauseContexts = map[string][]string{
+	"select_expression":        {"select {} from t", "select a, {} from t where b = 1"},
+	"table_factor":             {"select a from {}", "select a from t join {} on t.a = 1"},
+	"aliased_table_name":       {"select a from {}", "delete from {} where a = 1", "update {} set a = 1"},
+	"table_name":               {"select a from {}", "insert into {} (a) values (1)"},
+	"column_name":              {"select {} from t", "update t set {} = 1", "select a from t where {} = 1"},
+	"join_condition":           {"select a from t left join u {}"},
+	"join_condition_opt":       {"select a from t join u {}"},
+	"on_expression_opt":        {"select a from t straight_join u {}"},
+	"join_table":               {"select a from {}", "update {} set t.a = 1", "delete t from {} where t.a = 1"},
+	"index_hint_list":          {"select a from t {}", "select a from t as x {} where a = 1"},
+	"expression":               {"select a from t where {}", "select {} from t", "update t set a = 1 where {}", "select a from t group by a having {}"},
+	"condition":                {"select a from t where {}", "select a from t join u on {}"},
+	"tuple_expression":         {"select a from t where {} = (3, 4)", "select {} from t"},
+	"value_expression":         {"select {} from t", "select a from t where {} = 1", "insert into t (a) values ({})", "select a from t order by {}"},
+	"column_name_value_expr":   {"select {} from t"},
+	"subquery":                 {"select a from t where a in {}", "select {} from t", "select a from t where exists {}"},
+	"postgresql_interval":      {"select a + {} from t"},
+	"mysql_interval":           {"select a + {} from t", "select date_add(a, {}) from t"},
+	"function_call_generic":    {"select {} from t", "select a from t where {} > 1"},
+	"function_call_keyword":    {"select {} from t", "update t set a = {}"},
+	"function_call_nonkeyword": {"select {} from t", "insert into t (a) values ({})"},
+	"function_call_conflict":   {"select {} from t"},
+	"convert_type":             {"select cast(a as {}) from t", "select convert(a, {}) from t", "update t set b = cast(a as {})"},
+	"when_expression":          {"select case {} end from t", "select case a {} else 0 end from t"},
+	"order":                    {"select a from t order by {}", "select a from t order by b, {} limit 1"},
+	"limit_opt":                {"select a from t {}", "(select a from t) union (select a from u) {}", "update t set a = 1 {}", "delete from t {}"},
+	"update_expression":        {"update t set {}", "update t set {} where a = 1", "insert into t (a) values (1) on duplicate key update {}"},
+}
+
 type formGen struct {
-	r      *core.Run
-	kinds  string // the statement kinds of the regenerated table, comma-joined (argument of the census op)
-	pools  map[string][]string
-	counts map[string]int
+	r        *core.Run
+	wantKind string // judgeEmbedded: count the nodes of this kind
+	kinds    string // the statement kinds of the regenerated table, comma-joined (argument of the census op)
+	pools    map[string][]string
+	counts   map[string]int
 	// bookkeeping for the evidence
 	perProd     map[string]int
 	unproduced  []string
@@ -317,6 +422,18 @@ func terminalText(sym string) string {
 		return "<="
 	case "GE":
 		return ">="
+	case "SHIFT_LEFT":
+		return "<<"
+	case "SHIFT_RIGHT":
+		return ">>"
+	case "JSON_EXTRACT_OP":
+		return "->"
+	case "JSON_UNQUOTE_EXTRACT_OP":
+		return "->>"
+	case "NULL_SAFE_EQUAL":
+		return "<=>"
+	case "UNDERSCORE_BINARY":
+		return "_binary"
 	}
 	return strings.ToLower(sym)
 }
@@ -474,6 +591,60 @@ func runForms(r *core.Run) {
 			}
 		}
 	}
+	// phase 2: the grammar alternatives that build clause, table and expression nodes, put into a statement
+	doneAlt := map[string]bool{}
+	for pi, p := range prods {
+		ctxs, ok := clauseContexts[p.rule]
+		if !ok || p.top || p.rule == "base_select" {
+			continue
+		}
+		var shape []string
+		for _, s := range p.syms {
+			shape = append(shape, s.sym)
+		}
+		altKey := fmt.Sprintf("%s.%d %s", p.rule, p.alt, strings.Join(shape, " "))
+		if doneAlt[altKey] {
+			continue
+		}
+		doneAlt[altKey] = true
+		var opt []int
+		for i, s := range p.syms {
+			if s.nullable {
+				opt = append(opt, i)
+			}
+		}
+		prodKey := fmt.Sprintf("%s/%s.%d#%d", p.kind, p.rule, p.alt, pi)
+		for _, sub := range subsetsUpTo(len(opt), len(opt)) {
+			in := map[int]bool{}
+			for _, j := range sub {
+				in[opt[j]] = true
+			}
+			produced := false
+			for v := 0; v < variants; v++ {
+				for ci, ctx := range ctxs {
+					for _, d := range []string{"my", "pg"} {
+						if (v+ci)%2 == 1 && !r.Thorough() && len(ctxs) > 2 {
+							continue // quick tier: half of the (variant, context) grid
+						}
+						text, ok := g.build(p, in, v, d)
+						if !ok {
+							continue
+						}
+						if g.judgeEmbedded(p, strings.Replace(ctx, "{}", text, 1), d, paths, prodKey) {
+							produced = true
+						}
+					}
+				}
+			}
+			if !produced {
+				var names []string
+				for _, j := range sub {
+					names = append(names, p.syms[opt[j]].sym)
+				}
+				g.unproduced = append(g.unproduced, fmt.Sprintf("%s + {%s}", prodKey, strings.Join(names, ",")))
+			}
+		}
+	}
 	// evidence
 	r.Extra["forms_counts_kind_path_clause"] = g.counts
 	r.Extra["forms_statements_per_production"] = g.perProd
@@ -485,6 +656,24 @@ func runForms(r *core.Run) {
 		}
 	}
 	r.Extra["forms_paths_not_reached"] = unreached
+	// … of which the grammar can reach (some alternative is compatible with the path) and that belong to DML nodes
+	{
+		noProd := map[string]bool{}
+		for _, u := range strings.Fields(r.ModelOnly("C13.forms.unreachable")) {
+			noProd[u] = true
+		}
+		strict := map[string]bool{}
+		for _, k := range strings.Fields(r.ModelOnly("C13.forms.strictkinds")) {
+			strict[k] = true
+		}
+		missed := []string{}
+		for _, u := range unreached {
+			if !noProd[u] && strict[strings.SplitN(u, "/", 2)[0]] {
+				missed = append(missed, u)
+			}
+		}
+		r.Extra["forms_dml_paths_reachable_by_grammar_but_not_reached"] = missed
+	}
 	sort.Strings(g.unproduced)
 	dmlUn := 0
 	for _, u := range g.unproduced {
@@ -564,11 +753,15 @@ func (g *formGen) judge(p formProd, in map[int]bool, text, dialect string, paths
 		present, values := map[string]bool{}, map[string]string{}
 		if len(x) == 2 && x[1] != "" {
 			for _, fl := range strings.Split(x[1], ",") {
+				absent := strings.HasPrefix(fl, "!")
+				fl = strings.TrimPrefix(fl, "!")
 				if j := strings.IndexByte(fl, '='); j >= 0 {
 					values[fl[:j]] = unhexS(fl[j+1:])
 					fl = fl[:j]
 				}
-				present[fl] = true
+				if !absent {
+					present[fl] = true
+				}
 			}
 		}
 		np := pathOf(paths, x[0], present, values, dialect)
@@ -578,7 +771,12 @@ func (g *formGen) judge(p formProd, in map[int]bool, text, dialect string, paths
 		} else {
 			where = "nested"
 		}
-		g.reached[fmt.Sprintf("%s/%d", x[0], np)] = true
+		for _, q := range pathsOf(paths, x[0], present, values, dialect) {
+			g.reached[fmt.Sprintf("%s/%d", x[0], q)] = true
+		}
+		if x[0] == g.wantKind {
+			g.counts[x[0]+"/*"]++
+		}
 		for fl := range present {
 			g.counts[fmt.Sprintf("%s/%d/%s", x[0], np, fl)]++
 		}
@@ -639,4 +837,14 @@ func (g *formGen) addPool(name, text string) {
 	if g.r.Rand.Chance(10) {
 		pool[2+g.r.Rand.Intn(len(pool)-2)] = text
 	}
+}
+
+// judgeEmbedded: a clause production inside a statement context; returns whether the statement parsed and holds a
+// node of the production's kind
+func (g *formGen) judgeEmbedded(p formProd, text, dialect string, paths []formPath, prodKey string) bool {
+	before := g.counts[p.kind+"/*"]
+	g.wantKind = p.kind
+	g.judge(formProd{kind: "", rule: p.rule, alt: p.alt}, nil, text, dialect, paths, prodKey)
+	g.wantKind = ""
+	return g.counts[p.kind+"/*"] > before
 }
